@@ -27,6 +27,8 @@ def cells(a):
     if hasattr(a, "val") and hasattr(a, "weak"):      # shim scalar
         return [a.val]
     a = np.asarray(a)
+    if a.dtype.kind == "f":      # floats are observed as bit patterns (the symbolic side carries bit patterns)
+        a = np.ascontiguousarray(a).view({2: np.uint16, 4: np.uint32, 8: np.uint64}[a.dtype.itemsize])
     return a.ravel().tolist()
 
 
@@ -42,7 +44,26 @@ def arr(values, dtype):
 
 
 def mk_ragged(RaggedArray, data, lens, dtype="int64"):
-    return RaggedArray(arr(data, dtype), arr(lens, "int64"))
+    return RaggedArray(typed(data, dtype), arr(lens, "int64"))
+
+
+def pyval(v):
+    """python-level scalar (int or bool) from a python value or z3 term"""
+    if isinstance(v, (bool, int)) or v is None:
+        return v
+    if SYMBOLIC and hasattr(v, "sort") and str(v.sort()) == "Bool":
+        return np.bool_(v, weak=True)
+    return pyint(v)
+
+
+def farr(bits, dtype):
+    """float array from bit patterns (ints or z3 bit-vectors)"""
+    u = {"float16": "uint16", "float32": "uint32", "float64": "uint64"}[dtype]
+    return arr(bits, u).view(dtype)
+
+
+def typed(values, dtype):
+    return farr(values, dtype) if dtype.startswith("float") else arr(values, dtype)
 
 
 def pyint(v):
@@ -74,6 +95,8 @@ def obs_array(a):
 def obs_scalar(v):
     if hasattr(v, "dtype"):
         c = cells(v)
+        if getattr(v, "weak", False):
+            return {"k": "scalar", "val": c[0], "dtype": "py"}
         return {"k": "scalar", "val": c[0], "dtype": dtname(v)}
     if isinstance(v, bool):
         return {"k": "scalar", "val": v, "dtype": "pybool"}
@@ -181,6 +204,8 @@ def obs_equal(got, exp, strict_exc=False, dtype_matters=True):
         if "val" in g:
             g["val"] = int(g["val"]) if isinstance(g["val"], bool) else g["val"]
             e["val"] = int(e["val"]) if isinstance(e["val"], bool) else e["val"]
+    if "val" in g and "val" in e and (g["val"] == "?" or e["val"] == "?"):
+        g.pop("val"); e.pop("val")
     if "flat" in g and "flat" in e:
         gf, ef = g.pop("flat"), e.pop("flat")
         if len(gf) != len(ef):
